@@ -9,6 +9,7 @@ from __future__ import annotations
 
 import contextlib
 import os
+from collections import Counter
 from dataclasses import dataclass, field
 from typing import Callable
 
@@ -49,6 +50,7 @@ class Env:
         self.rng = rng
         self._uid = 0
         self._quiet: Env | None = None
+        self.stats: Counter = Counter()      # what a builder did on the harness side (merged into the shard counters)
         self.has_nan = any(O.is_nan_pattern(p, spec) for p in self.patterns)
 
     def path(self, stem: str) -> str:
@@ -218,6 +220,139 @@ _reg(RepDef("Tensor/arraylike", "Tensor/array-compatible", "Tensor/ml", _ok, _b_
 _reg(RepDef("Tensor/dlpack", "Tensor/dlpack", "Tensor/ml", _a_dlpack, _b_tensor_dlpack, cls="Tensor"))
 _reg(RepDef("ir.tensor/array", "ir.tensor(array)", "Tensor/ml", _ok, _b_irtensor_array, cls="Tensor"))
 _reg(RepDef("ir.tensor/list", "ir.tensor(list)", "Tensor/ml", _a_list, _b_irtensor_list, pyfloat=True, cls="Tensor"))
+
+
+# ---- plain Python numbers that are NOT exactly representable in the declared type ------------------
+def _a_unrounded(env):
+    sp = env.spec
+    if not ((sp.kind == "float" and sp.bits <= 32) or sp.name == "COMPLEX64"):
+        return "n/a:python-floats-are-exact-in-this-type"
+    return _a_list(env)
+
+
+def _trusted_conversions_agree(env, comp, flat_sources: np.ndarray) -> np.ndarray:
+    """Per component: do the conversions of the trusted base - numpy/ml_dtypes turning ONE Python float
+    into the element type, and the ONNX reference encoder onnx.helper.make_tensor - give the pattern the
+    source was constructed for?  Where they do not (ml_dtypes narrows some types through float32 itself;
+    FLOAT8E8M0 rounds up by definition) the expected value is ambiguous and the source is not used."""
+    sp = env.spec
+    n = env.size
+    cpats = O.component_patterns(env.patterns, sp)
+    exp = np.array(O.expected_bits(cpats, comp), dtype=np.uint64)
+    if sp.kind == "complex":
+        values = [complex(a, b) for a, b in zip(flat_sources[0::2].tolist(), flat_sources[1::2].tolist())]
+    else:
+        values = flat_sources.tolist()
+
+    def comp_bits(arr):
+        if sp.kind == "complex":
+            arr = np.ascontiguousarray(arr).view(comp.np_dtype)
+        return np.array(O.observed_bits(arr, comp), dtype=np.uint64)
+
+    with np.errstate(all="ignore"):
+        direct = comp_bits(np.array(values, dtype=sp.np_dtype)) == exp
+    try:
+        ref = comp_bits(numpy_helper.to_array(onnx_helper.make_tensor("g", sp.value, [n], values))) == exp
+    except Exception:  # noqa: BLE001 - the reference encoder cannot express these values
+        ref = np.zeros(exp.shape, dtype=bool)
+    env.stats["report_only_trusted_base_conversion_differs:numpy-from-python-float"] += int((~direct).sum())
+    env.stats["report_only_trusted_base_conversion_differs:onnx.helper.make_tensor"] += int((direct & ~ref).sum())
+    return direct & ref
+
+
+def unrounded_sources(env) -> list:
+    """One Python float (complex) per element that is NOT a value of the element type but lies in the
+    rounding interval of the element: just inside one end of it, or on an end that ties to the element.
+    A source is used only when the trusted conversions agree on what it rounds to (else the next coarser
+    distance from the end point, finally the exact value)."""
+    sp = env.spec
+    comp = O.component_spec(sp)
+    cpats = O.component_patterns(env.patterns, sp)
+    levels, exact = O.unrounded_candidates(comp, cpats)
+    n = len(cpats)
+    chosen = exact.copy()
+    # the hardest distance first for most elements; a few start further away from the end point
+    start = np.array([(0, 0, 2, 0, 1, 3)[i % 6] for i in range(n)], dtype=np.int64)
+    open_ = np.isfinite(exact)
+    level_of = np.full(n, -1, dtype=np.int64)
+    for lv, cand in enumerate(levels):
+        want = open_ & (start <= lv) & (cand != exact)
+        if not want.any():
+            continue
+        agree = _trusted_conversions_agree(env, comp, np.where(want, cand, exact))
+        take = want & agree
+        chosen = np.where(take, cand, chosen)
+        level_of[take] = lv
+        open_ &= ~take
+    for lv in range(len(levels)):
+        k = int((level_of == lv).sum())
+        if k:
+            env.stats[f"unrounded_elements@eps={O.ROUNDING_EPS[lv]:g}"] += k
+    env.stats["unrounded_elements"] += int((level_of >= 0).sum())
+    env.stats["unrounded_elements_hard(eps<=2^-30)"] += int(((level_of >= 0) & (level_of <= 2)).sum())
+    env.stats["unrounded_elements_fallback_exact"] += int((level_of < 0).sum())
+    if sp.kind == "complex":
+        return [complex(a, b) for a, b in zip(chosen[0::2].tolist(), chosen[1::2].tolist())]
+    return chosen.tolist()
+
+
+def _b_irtensor_list_unrounded(env):
+    vals = unrounded_sources(env)
+    arr = np.empty(len(vals), dtype=object)
+    arr[:] = vals
+    value = arr.reshape(env.shape).tolist()
+    return lambda: ir.tensor(value, dtype=env.dtype)
+
+
+_reg(RepDef("ir.tensor/list:unrounded", "ir.tensor(list of floats that need rounding)", "ir.tensor/list", _a_unrounded,
+            _b_irtensor_list_unrounded, pyfloat=True, cls="Tensor"))
+
+
+# ---- arrays whose storage differs from the native layout of the element type ------------------------
+def _a_multibyte_native(env):
+    if env.spec.name in O.NON_NATIVE or env.spec.bits < 16:
+        return "n/a:no-byte-order-or-alignment"
+    return None
+
+
+def _swapped(env) -> np.ndarray:
+    typed = O.typed_array(env.patterns, env.spec, env.shape)
+    order = ">" if np.little_endian else "<"
+    arr = typed.byteswap().view(typed.dtype.newbyteorder(order))    # same values, opposite byte order in memory
+    assert arr.dtype.byteorder == order and arr.astype(typed.dtype).tobytes() == typed.tobytes()   # harness self-check
+    return arr
+
+
+def _b_tensor_swapped(env):
+    arr = _swapped(env)
+    return lambda: ir.Tensor(arr)
+
+
+def _b_tensor_swapped_dtype(env):
+    arr = _swapped(env)
+    return lambda: ir.Tensor(arr, dtype=env.dtype)
+
+
+def _b_irtensor_swapped(env):
+    arr = _swapped(env)
+    return lambda: ir.tensor(arr)
+
+
+def _b_tensor_unaligned(env):
+    raw = bytearray(b"\xa5" + env.exp_bytes + b"\x5a")
+    arr = np.frombuffer(raw, dtype=env.spec.np_dtype, offset=1, count=env.size).reshape(env.shape)
+    return lambda: ir.Tensor(arr)
+
+
+# A constructor may refuse an array in non-native byte order (extra["may_refuse"]); a tensor that IS built
+# must agree with every other representation.
+_reg(RepDef("Tensor/byteswapped", "Tensor/non-native-byte-order-array", "Tensor/ml", _a_multibyte_native, _b_tensor_swapped,
+            cls="Tensor", extra={"may_refuse": True}))
+_reg(RepDef("Tensor/byteswapped+dtype", "Tensor/non-native-byte-order-array", "Tensor/byteswapped", _a_multibyte_native,
+            _b_tensor_swapped_dtype, cls="Tensor", extra={"may_refuse": True}))
+_reg(RepDef("ir.tensor/byteswapped-array", "ir.tensor(non-native-byte-order-array)", "Tensor/byteswapped", _a_multibyte_native,
+            _b_irtensor_swapped, cls="Tensor", extra={"may_refuse": True}))
+_reg(RepDef("Tensor/unaligned", "Tensor/unaligned-array", "Tensor/ml", _a_multibyte_native, _b_tensor_unaligned, cls="Tensor"))
 
 
 # ---- packed ------------------------------------------------------------------------------------
